@@ -60,7 +60,7 @@ class _Body(object):
     self.seen = cur
     st = _snapshot()
     # the callee sees pre-stack (+ possibly one own ctx of the wrapper)
-    if not (_same_stack(st[:len(self.pre)], self.pre) and len(st) - len(self.pre) in (0, 1)):
+    if not (_same_stack(st[:len(self.pre)], self.pre) and len(st) - len(self.pre) in (0, 1, 2)):
       self.ok = False
     if self.nest:
       with ag_ctx.ControlStatusCtx(ag_ctx.Status.DISABLED):
@@ -234,6 +234,60 @@ def internal_convert(depth: int, s0: int, s1: int, s2: int, s3: int, s: int, rai
   return _check(pre, before, body, out, raises, want, True)
 
 
+def reenter_existing(depth: int, s0: int, s1: int, s2: int, s3: int, s: int, raises: bool, nest: bool,
+                     j: int) -> bool:
+  """
+  pre: 1 <= depth <= 4 and 0 <= s0 <= 2 and 0 <= s1 <= 2 and 0 <= s2 <= 2 and 0 <= s3 <= 2 and 0 <= s <= 2
+  pre: 0 <= j < depth
+  post: _
+  """
+  # a context object that is ALREADY on the stack (captured earlier with
+  # control_status_ctx()) is entered again below other contexts - the pattern that
+  # api.internal_convert documents (ctx captured outside, used inside a do_not_convert region)
+  pre = _install(depth, s0, s1, s2, s3)
+  before = ag_ctx.control_status_ctx()
+  body = _Body(pre, raises, nest)
+  again = pre[j]
+
+  def step(b):
+    with again:
+      return b()
+
+  out = _run(step, body)
+  if not _same_stack(_snapshot(), pre) or ag_ctx.control_status_ctx() is not before:
+    return False
+  if body.calls != 1 or not body.ok or body.seen is not again:
+    return False
+  return out == (('boom',) if raises else ('ret', 41))
+
+
+def reenter_via_internal_convert(depth: int, s0: int, s1: int, s2: int, s3: int, s: int, raises: bool,
+                                 nest: bool, j: int) -> bool:
+  """
+  pre: 1 <= depth <= 4 and 0 <= s0 <= 2 and 0 <= s1 <= 2 and 0 <= s2 <= 2 and 0 <= s3 <= 2 and 0 <= s <= 2
+  pre: 0 <= j < depth
+  post: _
+  """
+  pre = _install(depth, s0, s1, s2, s3)
+  pre[j].status = ag_ctx.Status.ENABLED          # internal_convert dispatches on ctx.status
+  before = ag_ctx.control_status_ctx()
+  body = _Body(pre, raises, nest)
+  real = api.converted_call
+  api.converted_call = _stub_converted_call
+  try:
+    # inside a do_not_convert region, as in the documented usage
+    def region(b):
+      return api.internal_convert(b, pre[j])(1)
+    out = _run(lambda b: api.do_not_convert(region)(b), body)
+  finally:
+    api.converted_call = real
+  if not _same_stack(_snapshot(), pre) or ag_ctx.control_status_ctx() is not before:
+    return False
+  if body.calls != 1 or body.seen is not pre[j]:
+    return False
+  return out == (('boom',) if raises else ('ret', 41))
+
+
 def reach_twin(depth: int, s0: int, s1: int, s2: int, s3: int, s: int, raises: bool, nest: bool) -> bool:
   """
   pre: 1 <= depth <= 4 and 0 <= s0 <= 2 and 0 <= s1 <= 2 and 0 <= s2 <= 2 and 0 <= s3 <= 2 and 0 <= s <= 2
@@ -244,7 +298,7 @@ def reach_twin(depth: int, s0: int, s1: int, s2: int, s3: int, s: int, raises: b
 
 
 HARNESSES = ['ctx_block', 'function_scope', 'with_function_scope', 'do_not_convert', 'unspecified',
-             'convert_wrapper', 'internal_convert']
+             'convert_wrapper', 'internal_convert', 'reenter_existing', 'reenter_via_internal_convert']
 
 
 def explain(func, args, kwargs):
